@@ -15,6 +15,9 @@ History (JSON-able list of macro steps):
   ["A", l] / ["D", l]        dispatcher_connect(listener l) / its stop callable
   ["CU", script]             let the connector establish a new secure session (virtual time advances
                              until its next attempt; dials are refused except at CU steps)
+  ["SW", ids, script, opts]  subscribe() is called while disconnected and the connector establishes the new session
+                             while that call is still waiting for it (script without cut-offs); for the model this
+                             is Subscribe (disconnected); ConnUp script; Subscribe script
   ["CD", how]                the accessory drops the idle session: how = fin | reset
   ["EB", bodies, pieces]     the accessory sends the EVENT messages `bodies` as ONE ciphertext stream,
                              delivered in reads cut at `pieces` (fractions in 0..1 of the stream);
@@ -166,6 +169,33 @@ def run_impl(hist, rmodes, lacts=None):
             def live():
                 return bool(sessions) and not sessions[-1].tr.is_closing() and bool(p.is_connected)
 
+            async def conn_up(st, rs, nsess, hasten):
+                state["rs"] = rs
+                net.script.append(("connect", 0))
+                if net.attempts == 0 or hasten:
+                    counters["starts"] += 1
+                    p.connection.reconnect_soon()       # what a zeroconf sighting does
+                await vloop.sleep_ticks(1)
+                for attempt in range(2):
+                    a0, waited = net.attempts, 0
+                    while len(sessions) == nsess and waited < 62 * 2:
+                        await vloop.sleep_ticks(2048)
+                        waited += 1
+                    if len(sessions) > nsess or net.attempts != a0 or attempt:
+                        break
+                    # no attempt within the maximal back-off: no connector is running
+                    # (DESIGN.md section 6 (o), owned by C10) - do what zeroconf would do
+                    counters["nudges"] += 1
+                    st["anomalies_c10"] = "no connector was running; reconnect_soon() used"
+                    p.connection.reconnect_soon()
+                if len(sessions) == nsess:
+                    st["anomalies"].append("no-session-within-124s")
+                    if ("connect", 0) in net.script:
+                        net.script.remove(("connect", 0))
+                await vloop.sleep_ticks(1)
+                if state["silent"]:
+                    await vloop.sleep_ticks(31 * 4096)
+
             for item in hist:
                 kind = item[0]
                 st = dict(kind=kind, puts=[], calls=[], ret=None, sess=False, anomalies=[], sent=False, errors=0)
@@ -190,31 +220,17 @@ def run_impl(hist, rmodes, lacts=None):
                         await vloop.sleep_ticks(1)
                 elif kind == "CU":
                     if not p.is_connected:
-                        state["rs"] = item[1]
-                        net.script.append(("connect", 0))
-                        if net.attempts == 0:
-                            counters["starts"] += 1
-                            p.connection.reconnect_soon()       # what a zeroconf sighting does
-                        await vloop.sleep_ticks(1)
-                        for attempt in range(2):
-                            a0, waited = net.attempts, 0
-                            while len(sessions) == nsess and waited < 62 * 2:
-                                await vloop.sleep_ticks(2048)
-                                waited += 1
-                            if len(sessions) > nsess or net.attempts != a0 or attempt:
-                                break
-                            # no attempt within the maximal back-off: no connector is running
-                            # (DESIGN.md section 6 (o), owned by C10) - do what zeroconf would do
-                            counters["nudges"] += 1
-                            st["anomalies_c10"] = "no connector was running; reconnect_soon() used"
-                            p.connection.reconnect_soon()
-                        if len(sessions) == nsess:
-                            st["anomalies"].append("no-session-within-124s")
-                            if ("connect", 0) in net.script:
-                                net.script.remove(("connect", 0))
-                        await vloop.sleep_ticks(1)
-                        if state["silent"]:
-                            await vloop.sleep_ticks(31 * 4096)
+                        await conn_up(st, item[1], nsess, False)
+                elif kind == "SW":
+                    ids = [tuple(x) for x in item[1]]
+                    arg = set(ids) if item[3].get("as_set") else ids
+                    state["rs"] = item[2]
+                    task = asyncio.ensure_future(api(p.subscribe(arg)))
+                    await vloop.sleep_ticks(1)
+                    if not p.is_connected:
+                        await conn_up(st, item[2], nsess, True)
+                    st["ret"] = await task
+                    await vloop.sleep_ticks(1)
                 elif kind == "EB":
                     if live():
                         ep = sessions[-1]
@@ -276,6 +292,8 @@ def model_events(item):
     k = item[0]
     if k in ("S", "U"):
         return [f"{k}:{tok_ids(item[1])}:{tok_script(item[2])}"]
+    if k == "SW":
+        return [f"S:{tok_ids(item[1])}:-", f"CU:{tok_script(item[2])}", f"S:{tok_ids(item[1])}:{tok_script(item[2])}"]
     if k in ("A", "D"):
         return [f"{k}:{item[1]}"]
     if k == "CU":
@@ -367,7 +385,7 @@ def compare(hist, rmodes, model, impl, lacts=None):
         if o["sess"] != m["sess"] or o.get("nsess", 0) > 1:
             d("session", f"new session: impl {o.get('nsess')} model {m['sess']}")
         nsess += o.get("nsess", 0)
-        if k in ("S", "U") and o["ret"] != m["ret"]:
+        if k in ("S", "U", "SW") and o["ret"] != m["ret"]:
             d("result-class", f"impl {o['ret']} model {m['ret']}")
         for l in lids:
             ci = [e for ll, e in o["calls"] if ll == l]
@@ -389,7 +407,7 @@ def compare(hist, rmodes, model, impl, lacts=None):
                 d("put-outcome", f"impl saw cut-off replies {bad}, model none")
         else:
             # which requests precede the cut-off one depends on set iteration order: only the shape is compared
-            full = set(m["subs_before"]) if k == "CU" else {tuple(c) for c in item[1]}
+            full = set(m["subs_before"]) if k == "CU" else ({tuple(c) for c in item[1]} | set(m["subs_before"]))
             kinds = [p[2] for p in o["puts"]]
             ok = (kinds and kinds[-1] == cut[0][2] and all(x in ("o", "s") for x in kinds[:-1])
                   and all(p[0] is cut[0][0] for p in o["puts"])
@@ -440,11 +458,11 @@ def oracle(hist, rmodes, impl, lacts=None):
             registered.add(item[1])
         elif k == "D":
             registered.discard(item[1])
-        elif k == "S":
+        elif k in ("S", "SW"):
             wanted |= {tuple(c) for c in item[1]}
         elif k == "U":
             wanted -= {tuple(c) for c in item[1]}
-        if k == "CU" and o["sess"]:
+        if k in ("CU", "SW") and o["sess"]:
             live = True
             reentrant = any(fires(lacts.get(l, [0, []])[0], {}) and lacts[l][1] for l in registered)
             for l in sorted(registered):
@@ -535,6 +553,9 @@ def gen_exhaustive(depth):
                     variants.append(ops[:pos] + [["CD", how], ["CU", {}]] + ops[pos:])
                 if pos < len(ops):
                     variants.append(ops[:pos] + [["CD", "fin"], ops[pos], ["CU", {}]] + ops[pos + 1:])
+                # a subscribe() call that is waiting for the connection when the session comes up
+                variants.append(ops[:pos] + [["CD", "reset"], ["SW", [[1, 3], [2, 3]], {"2": ["s", [[2, 3, -70402]]]}, {}]]
+                                + ops[pos:])
                 # the re-subscribe of a reconnect at this point is itself cut off
                 for aid in ("1", "2"):
                     for rep in [["d", v] for v in DISC] + [["x", 400]]:
@@ -620,6 +641,10 @@ def gen_random(r, n):
                 if (up and r.random() < 0.95) or (not up and r.random() < 0.05):
                     hist.append(["CD", r.choice(["fin", "reset"])])
                     up = False
+                elif r.random() < 0.2:
+                    rs = {k: v for k, v in rand_script(r).items() if v[0] == "s"}
+                    hist.append(["SW", rand_ids(r), rs, {"as_set": r.random() < 0.3}])
+                    up = True
                 else:
                     hist.append(["CU", rand_script(r)])
                     up = True      # approximately: a cut-off re-subscribe drops it again
@@ -683,7 +708,8 @@ def run(ctx):
             f"{n_ex} histories: every sequence of <= {depth} operations over an 8-operation alphabet (subscribe/unsubscribe "
             "with overlapping sets over aids 1,2, a rejected unsubscribe, listener add/remove, event bursts incl. empty/non-JSON "
             "and a split read) after a fixed prefix, with at EVERY position: a FIN or RST reconnect cycle, the operation "
-            "executed while disconnected, a reconnect whose re-subscribe is cut off (5 ways + HTTP 4xx, per aid), and for "
+            "executed while disconnected, a subscribe() call waiting for the connection while the session comes up, "
+            "a reconnect whose re-subscribe is cut off (5 ways + HTTP 4xx, per aid), and for "
             "every subscribe/unsubscribe request the same cut-offs of the request itself; 8 listener-behaviour tables "
             "(raising / self-removing / registering listeners) in rotation")
     lines = [model_line(h, ints(rm), ints(la)) for h, rm, la in cases]
